@@ -80,7 +80,7 @@ def main():
     if res.get('confirmed'):
         shutil.copy(patch, os.path.join(dst, 'patch.diff'))
         shutil.copy(demo, os.path.join(dst, 'demo.py'))
-        json.dump({'breaks_property': prop, 'needs_to_manifest': meta.get('what_it_needs_to_manifest'),
+        json.dump({'breaks_property': prop, 'needs_to_manifest': (meta.get('needs_to_manifest') or meta.get('what_it_needs_to_manifest')),
                    'what_it_changes': meta.get('what_it_changes'), 'files_changed': meta.get('files_changed'),
                    'confirmed_by': 'tools/seed_eval.py: patch applies on /repo HEAD in a scratch worktree; suite = %s; demo exit clean=%s patched=%s'
                                    % (res.get('suite_with_patch'), res.get('demo_clean_exit'), res.get('demo_patched_exit')),
